@@ -1217,7 +1217,7 @@ def setLog (h : Heap) : List Wr :=
   [⟨.cols, h.colss.length⟩, ⟨.map, h.maps.length⟩, ⟨.map, h.maps.length⟩, ⟨.cols, h.colss.length⟩]
 
 theorem setTail_run (E : PIn) (h : Heap) (L : Nat) (wf : PWF h E.f L) (n pos : PI) (c : PC) (σ : PMem) (nn pp : Nat)
-    (col : Option PCol) (hσ : σ.h = h)
+    (col : Option PXCol) (hσ : σ.h = h)
     (hn : ∀ σ' : PMem, σ'.ea = σ.ea → σ'.eb = σ.eb → n.eval E σ' = some nn)
     (hp : ∀ σ' : PMem, σ'.ea = σ.ea → σ'.eb = σ.eb → pos.eval E σ' = some pp)
     (hc : ∀ σ' : PMem, σ'.ea = σ.ea → σ'.eb = σ.eb → c.eval E σ' = col)
@@ -1340,7 +1340,7 @@ theorem setCols'_missing {h : Heap} {f : PFrame} {L : Nat} (wf : PWF h f L) (e :
 
 /-- the destination exists: well-formedness is kept (`Frame.setColumn_wf`, overwrite case) -/
 theorem set_wf_found {h : Heap} {f : PFrame} {L : Nat} (wf : PWF h f L) (dst : Bytes) (ex : NCol)
-    (hd : f.lookup h dst = some ex) (col : Option PCol) (hcol : ∃ p, col = some p ∧ p.data.size = L) :
+    (hd : f.lookup h dst = some ex) (col : Option PXCol) (hcol : ∃ p, col = some p ∧ p.data.size = L) :
     PWF (setHeap h f f.cols.len ex.pos ⟨dst, ex.pos, col⟩) (setFrame h f f.cols.len) L := by
   obtain ⟨ea, eb⟩ := wf.mapOk dst ex hd
   have hlt : ex.pos < (f.colList h).length := by rw [colList_length wf]; exact pos_lt wf hd
@@ -1385,7 +1385,7 @@ theorem set_wf_found {h : Heap} {f : PFrame} {L : Nat} (wf : PWF h f L) (dst : B
 
 /-- the destination is new: well-formedness is kept (`Frame.setColumn_wf`, append case) -/
 theorem set_wf_missing {h : Heap} {f : PFrame} {L : Nat} (wf : PWF h f L) (dst : Bytes)
-    (hd : f.lookup h dst = none) (col : Option PCol) (hcol : ∃ p, col = some p ∧ p.data.size = L) :
+    (hd : f.lookup h dst = none) (col : Option PXCol) (hcol : ∃ p, col = some p ∧ p.data.size = L) :
     PWF (setHeap h f (f.cols.len + 1) f.cols.len ⟨dst, f.cols.len, col⟩) (setFrame h f (f.cols.len + 1)) L := by
   have hl := colList_length wf
   constructor
@@ -1495,7 +1495,7 @@ theorem set_self {α : Type} (l : List α) (i : Nat) (a : α) (h : l[i]? = some 
     | succ i => simp at h; simp [ih i h]
 
 theorem set_unique_found {h : Heap} {f : PFrame} {L : Nat} (wf : PWF h f L) (u : UniqueNames h f) (dst : Bytes) (ex : NCol)
-    (hd : f.lookup h dst = some ex) (col : Option PCol) :
+    (hd : f.lookup h dst = some ex) (col : Option PXCol) :
     UniqueNames (setHeap h f f.cols.len ex.pos ⟨dst, ex.pos, col⟩) (setFrame h f f.cols.len) := by
   obtain ⟨ea, eb⟩ := wf.mapOk dst ex hd
   simp only [UniqueNames, set_colList wf _ _ _ (Nat.le_refl _), setCols'_found, List.map_set]
@@ -1504,7 +1504,7 @@ theorem set_unique_found {h : Heap} {f : PFrame} {L : Nat} (wf : PWF h f L) (u :
   · rw [List.getElem?_map, ea]; simp [eb]
 
 theorem set_unique_missing {h : Heap} {f : PFrame} {L : Nat} (wf : PWF h f L) (u : UniqueNames h f) (dst : Bytes)
-    (hd : f.lookup h dst = none) (col : Option PCol) :
+    (hd : f.lookup h dst = none) (col : Option PXCol) :
     UniqueNames (setHeap h f (f.cols.len + 1) f.cols.len ⟨dst, f.cols.len, col⟩) (setFrame h f (f.cols.len + 1)) := by
   simp only [UniqueNames, set_colList wf _ _ _ (Nat.le_succ _), setCols'_missing wf, List.map_append, List.map_cons,
     List.map_nil]
